@@ -185,6 +185,11 @@ func denote0(v JV, t reflect.Type, path string) Den {
 			if isNearLayoutThreshold(x) {
 				return anyDen("to-string:num-layout-threshold")
 			}
+			if strings.HasPrefix(v.Form, "go:") && math.Abs(x) >= 9007199254740992 {
+				// a Go integer beyond 2^53 is kept as an integer inside the Value and prints all its
+				// digits (C06-INT64-VALUE): either text is a faithful rendering
+				return anyDen("to-string:go-integer-beyond-2^53")
+			}
 			if path == "call" && v.GoKind() == "float64" && goFormatV(x) != s {
 				d.Known = append(d.Known, KNumToStr)
 			}
